@@ -1,12 +1,12 @@
 SPECIFICATION Spec
 CONSTANTS
-  Depth = 5
+  Depth = 4
   BugGlobalFallback = FALSE
   BugSharedInstance = FALSE
   BugCloneShares = FALSE
   BugShCoupled = FALSE
   BugRowsFromSeed = FALSE
-  ChildInit = FALSE
+  ChildInit = TRUE
   Focus = "all"
   Emit = FALSE
 VIEW AbstractView
